@@ -1,4 +1,5 @@
 import SradModel.Model.HostCmd
+import SradModel.Model.HostCmdWire
 import SradModel.Drv.Cmd
 import SradModel.Drv.Codec
 import SradModel.Drv.Util
@@ -22,6 +23,13 @@ prints the client call resp. the node's effects in the harness' canonical form.
   hcmd deliver
       the last call's topic string and encoded payload through the broker, the node's client and
       the node → `unsent` | `unrouted` | `ignored` | effects as in `cmd`
+  hcmd wbytes <clock> <pm>*
+      the bytes `Payload::encode_to_vec` writes for `metrics_to_payload(<pm>*)` at clock reading
+      <clock>, by the concrete codec `encWC` of Model/HostCmdWire.lean (C15HW); the rebirth request
+      is `<pm>` = `n<hex of "Node Control/Rebirth">,~,t.bool,1`
+      → `ok <hex>` | `range <hex>` (the payload is not `inRangeC validUtf8`) | `bad-op`
+  hcmd wdeliver
+      as `deliver`, but the payload travels as `encWC` bytes and is read by `decWC validUtf8`
 -/
 namespace Srad.Drv.HostCmdD
 open Srad Srad.Codec Srad.Cmd Srad.HostCmd Srad.Drv.CmdD
@@ -155,6 +163,24 @@ def stepHcmd (h : HcmdSt) : List String → HcmdSt × String
       match parseAnswer a, unhex g, unhex n, clock.toNat? with
       | some ok, some g, some n, some clock => record h clock (publishNodeRebirth clock g n) ok
       | _, _, _, _ => (h, "bad-op")
+    | "wbytes" :: clock :: pms =>
+      match clock.toNat?, mapM? parsePM pms with
+      | some clock, some pms =>
+        let p := metricsToPayload clock pms
+        (h, (if inRangeC validUtf8 p then "ok " else "range ") ++ hex (encWC p))
+      | _, _ => (h, "bad-op")
+    | ["wdeliver"] =>
+      match h.last with
+      | none => (h, "unsent")
+      | some (_, false) => ({ h with last := none }, "unsent")
+      | some (c, true) =>
+        let h' := { h with last := none }
+        match transport validUtf8 encWC (decWC validUtf8) h.cfg c with
+        | .unrouted => (h', "unrouted")
+        | .ignored => (h', "ignored")
+        | .handled op =>
+          let r := Cmd.step [] h.st op
+          ({ h' with st := r.1 }, showEffs false r.2)
     | ["deliver"] =>
       match h.last with
       | none => (h, "unsent")
